@@ -727,11 +727,21 @@ class Repo(object):
                 if isinstance(base, dict) and f.attr in ("keys", "values", "items", "copy"):
                     return list(getattr(base, f.attr)()) if f.attr != "copy" else dict(base)
                 raise Unknown("method call %s" % f.attr)
+            if dn == "itertools.chain":
+                out = []
+                for a in node.args:
+                    out.extend(list(ev(a)))
+                return out
             raise Unknown("call to %s" % dn)
         if isinstance(f, ast.Name):
             if f.id in env:
                 raise Unknown("call of local")
             ref = self.resolve(module, f.id)
+            if ref is not None and ref.qualname == "itertools.chain":
+                out = []
+                for a in node.args:
+                    out.extend(list(ev(a)))
+                return out
             if ref is not None and ref.qualname == "functools.partial":
                 target = node.args[0]
                 tref = None
